@@ -2,7 +2,7 @@
    The harness writes the real dimensions and the implementation's observed behaviour as literals;
    these functions compare them with the model (and with the specification) inside Coq. *)
 From Coq Require Import ZArith List Bool.
-From Catii Require Import Base.Cases Base.Sorted Cube.Dim Cube.Walk Cube.WalkSpec Cube.Diff Cube.Region Cube.Count.
+From Catii Require Import Base.Cases Base.Sorted Cube.Dim Cube.Walk Cube.WalkSpec Cube.Diff Cube.Region Cube.Count Cube.CountTable.
 Import ListNotations.
 Open Scope Z_scope.
 
@@ -44,6 +44,10 @@ Definition cell_expect (fmt null : Z) (vm : Z * bool) : option Z * bool :=
   else if Z.eqb fmt 1 then (Some (fst (report_pair null vm)), snd (report_pair null vm))
   else (Some (report_plain null vm), true).
 
+(* The model cube is evaluated ONCE per case ([count_lookup]: a table staged through every differencing step, or,
+   for boxes beyond TABLE_LIMIT cells - an axis at the 255 .. 65537 boundaries - the right-hand side of theorem
+   C02_count, then demanding the theorem's hypotheses dim_wf_b / covers_b).  CountProofs.count_lookup_spec:
+   count_lookup_ok = true -> in_shape -> count_lookup N dims shape cell = fst (count_cube N dims shape cell). *)
 Definition c02_check (c : c02_case) : bool :=
   let '(N, dl, shape, inferred, (fmt, null), cells, raised) := c in
   let dims := mkdims dl in
@@ -53,8 +57,8 @@ Definition c02_check (c : c02_case) : bool :=
      | None => true
      end
   && (if raised then negb (cube_ok shape dims)
-      else cube_ok shape dims &&
-           let R := count_diffed N dims shape in
+      else cube_ok shape dims && count_lookup_ok N dims shape &&
+           let R := count_lookup N dims shape in
            forallb (fun oc : obs_cell =>
                       let '(cell, v, valid) := oc in
                       let ex := cell_expect fmt null (reduce_count R cell) in
@@ -76,4 +80,6 @@ Definition c02_explain (c : c02_case) :=
   let '(N, dl, shape, inferred, (fmt, null), cells, raised) := c in
   let dims := mkdims dl in
   (forallb (dim_wf_b N) dims, infer_shape dims, cube_ok shape dims, covers_b shape dims,
-   map (fun oc : obs_cell => let '(cell, v, valid) := oc in (cell, count_cube N dims shape cell, v, valid)) cells).
+   count_lookup_ok N dims shape,
+   let R := count_lookup N dims shape in
+   map (fun oc : obs_cell => let '(cell, v, valid) := oc in (cell, reduce_count R cell, v, valid)) cells).
